@@ -101,6 +101,10 @@ Instants(tz) ==
         ELSE {})
   \cup {T(2022, 1, 15, 43200), T(2022, 7, 15, 43200), T(2024, 2, 29, 0), T(2100, 3, 1, 12), T(1985, 6, 1, 1), T(2499, 12, 31, 86399),
         T(1900, 1, 1, 0), T(2038, 1, 19, 11648)}
+  \* the first and the last year of the range (23 June -5879611 .. 12 July 5879611): some switch-over days of these
+  \* years lie outside the range, the rule still decides every instant inside it
+  \cup {<<MaxDn, 86399>>, <<MaxDn, 0>>, <<MaxDn - 30, 43200>>, <<MaxDn - 75, 0>>, <<MaxDn - 120, 1>>, <<MaxDn - 192, 0>>, <<MaxDn - 250, 7>>,
+        <<MinDn, 0>>, <<MinDn + 1, 43200>>, <<MinDn + 45, 0>>, <<MinDn + 110, 5>>, <<MinDn + 135, 0>>, <<MinDn + 192, 86399>>, <<MinDn + 300, 0>>}
 
 SortedInstants(tz) == SetToSortSeq(Instants(tz), TLt)
 
@@ -115,5 +119,10 @@ LookupCase(tz) ==
 \* every synthesized footer has the IANA shape the property assumes, in every year used
 ASSUME \A i \in 1..Len(Footers), y \in Years : IanaShaped(Footers[i][1], y)
 ASSUME \A tz \in Files : FooterConsistent(tz)
+\* 400-year periodicity of the rule evaluation (what RuleOffset relies on at the ends of the range)
+ASSUME \A i \in 1..Len(Footers) : \A t \in {T(2023, 1, 1, 0), T(2023, 3, 26, 3599), T(2023, 3, 26, 3600), T(2024, 2, 29, 5), T(2024, 7, 1, 0),
+                                            T(2023, 10, 29, 3600), T(2024, 11, 3, 21600), T(2024, 12, 31, 86399), T(1999, 4, 4, 7200)} :
+         RuleOffsetIn(Footers[i][1], t) = RuleOffsetIn(Footers[i][1], <<t[1] + DaysPerEra, t[2]>>)
+         /\ RuleOffsetIn(Footers[i][1], t) = RuleOffsetIn(Footers[i][1], <<t[1] - DaysPerEra, t[2]>>)
 ASSUME LET cs == SetToSeq({LookupCase(tz) : tz \in Files}) IN ndJsonSerialize(IOEnv.OUT, cs) /\ PrintT(<<"GENERATED", Len(cs)>>)
 =============================================================================
